@@ -892,10 +892,36 @@ impl Oracle {
         {
             self.d22_padded = true;
         }
+        let top_before = self.vt.top;
         let vt = &mut self.vt;
         if crate::catch(|| vt.feed(&o.emitted)).is_err() {
             self.vt_broken = true;
             return None;
+        }
+        // C19 "the top of the managed region never scrolls out of reach": a call that paints nothing
+        // (only clear_line / empty write_line padding) must not scroll the terminal
+        let writes_text = o.emitted.iter().any(|x| matches!(x, TOp::Str(t) | TOp::Line(t) if !t.is_empty()))
+            || matches!(op, Op::Suspend(..) | Op::MSuspend(_) | Op::Println(..) | Op::MPrintln(_));
+        // (a scroll while the region is lower than the screen only moves the log up, like a println; when
+        // the erased region was as tall as the screen its top row leaves the screen: out of reach)
+        let full = o
+            .emitted
+            .split(|x| *x == TOp::Flush)
+            .any(|seg| seg.iter().filter(|x| **x == TOp::Clear).count() == self.h);
+        if !writes_text && self.vt.top > top_before && full {
+            return Some(Violation {
+                class: if self.bottom_ever && full {
+                    "bottom-empty-frame-at-full-height-scrolls".into() // finding candidate D26
+                } else {
+                    "empty-frame-scrolls-terminal".into()
+                },
+                detail: format!(
+                    "{:?} painted no text, yet the terminal scrolled by {} row(s): calls {:?}",
+                    op,
+                    self.vt.top - top_before,
+                    o.emitted
+                ),
+            });
         }
         // position of the first line written by a suspend closure, if that line is empty
         let empty_first_closure_line: Option<usize> = match op {
